@@ -6,7 +6,7 @@ import SciVerif.Tie.Pins
 of `IPSelectorSync.Run`/`recvOneEach`, of `Concatenator.Run` and of the source components. -/
 namespace SciVerif.Tie
 -- functions the model relies on without an obligation of its own naming them (pinned by bin/mkpins):
--- PIN-ALSO: Components.IPSelectorSync_syncRead Components.FileSplitter_createNewSplitFile Components.FileSplitter_newSplitIPFromIndex Components.cleanFilePatterns Components.cleanFiles
+-- PIN-ALSO: Components.IPSelectorSync_syncRead Components.FileSplitter_createNewSplitFile Components.FileSplitter_newSplitIPFromIndex Components.cleanFilePatterns Components.cleanFiles Components.NewCommandToParams Components.CommandToParams_OutParam Components.NewConcatenator Components.Concatenator_In Components.Concatenator_Out Components.NewFileCombinator Components.FileCombinator_In Components.FileCombinator_Out Components.NewFileGlobber Components.NewFileGlobberDependent Components.FileGlobber_Out Components.FileGlobber_InDependency Components.NewFileSource Components.FileSource_Out Components.NewFileSplitter Components.FileSplitter_InFile Components.FileSplitter_OutSplitFile Components.getRandString Components.NewFileToParamsReader Components.FileToParamsReader_OutLine Components.NewIPSelectorSync Components.IPSelectorSync_In Components.IPSelectorSync_Out Components.NewParamCombinator Components.ParamCombinator_InParam Components.ParamCombinator_OutParam Components.NewParamSource Components.ParamSource_Out
 open SciVerif.Generated
 
 /-- the recursion and the two inner loops of `combine`, for the map called `inName` / `outName` -/
@@ -86,30 +86,59 @@ theorem generated_concat_and_sources :
 
 
 
+
 -- BEGIN PINS (written by bin/mkpins; do not edit by hand)
 /-- the Go functions this property's model and obligations were written against have exactly the
 pinned skeletons (SHA-256 prefix of the atom list) -/
 theorem pinned_skeletons_c19 :
     pinsOk
     [("Components.#decls", "84eddb1c2309452c"),
+     ("Components.CommandToParams_OutParam", "26c5f796efb9d3c4"),
      ("Components.CommandToParams_Run", "5332a14740c49675"),
+     ("Components.Concatenator_In", "338c289a3d0957ee"),
+     ("Components.Concatenator_Out", "00960848d5f3d1bb"),
      ("Components.Concatenator_Run", "31b9a713ae609514"),
+     ("Components.FileCombinator_In", "6a5035182f952fdb"),
+     ("Components.FileCombinator_Out", "d22a23aa25096e6d"),
      ("Components.FileCombinator_Run", "c80f07b773d07bc8"),
      ("Components.FileCombinator_combine", "469f973aa97a6873"),
+     ("Components.FileGlobber_InDependency", "fb65998ae9c329db"),
+     ("Components.FileGlobber_Out", "00960848d5f3d1bb"),
      ("Components.FileGlobber_globFiles", "ee82b1a1db56bffd"),
+     ("Components.FileSource_Out", "00960848d5f3d1bb"),
      ("Components.FileSource_Run", "301d30b840f1f193"),
+     ("Components.FileSplitter_InFile", "2eb241e4238bec17"),
+     ("Components.FileSplitter_OutSplitFile", "4d163e1a13ff832b"),
      ("Components.FileSplitter_Run", "5b56a840c637c735"),
      ("Components.FileSplitter_createNewSplitFile", "d5b42d9115976cfa"),
      ("Components.FileSplitter_newSplitIPFromIndex", "e828aaa7fdf98ca3"),
+     ("Components.FileToParamsReader_OutLine", "119dc6dfd2dbff59"),
      ("Components.FileToParamsReader_Run", "73e9b69121ec7f25"),
+     ("Components.IPSelectorSync_In", "2591e5685d6c8274"),
+     ("Components.IPSelectorSync_Out", "56c989aa893a8e4f"),
      ("Components.IPSelectorSync_Run", "bdc706bc9ab92453"),
      ("Components.IPSelectorSync_recvOneEach", "61813e5b75ed7704"),
      ("Components.IPSelectorSync_syncRead", "c002d25cd3f8836d"),
+     ("Components.NewCommandToParams", "32f304bfe1104d4e"),
+     ("Components.NewConcatenator", "10b42796b1c99f0e"),
+     ("Components.NewFileCombinator", "cc16872679faf2a0"),
+     ("Components.NewFileGlobber", "91bf4c8ab8653014"),
+     ("Components.NewFileGlobberDependent", "86a7c404198760d3"),
+     ("Components.NewFileSource", "bc65e1a0f7fcacbe"),
+     ("Components.NewFileSplitter", "d34f724fa938f5cf"),
+     ("Components.NewFileToParamsReader", "62ccc43d63859879"),
+     ("Components.NewIPSelectorSync", "9b991132839d7018"),
+     ("Components.NewParamCombinator", "bb6a7155eb925737"),
+     ("Components.NewParamSource", "1e126ed5b1f79266"),
+     ("Components.ParamCombinator_InParam", "2dc335745ca293c3"),
+     ("Components.ParamCombinator_OutParam", "63fa36d115829e11"),
      ("Components.ParamCombinator_Run", "f5dcec212739b17f"),
+     ("Components.ParamSource_Out", "2f96033f1467cd1a"),
      ("Components.ParamSource_Run", "e8fb20620214e0d2"),
      ("Components.cleanFilePatterns", "d7d8d66bd51f800c"),
      ("Components.cleanFiles", "59305c7d8422deb9"),
-     ("Components.combine", "821eee6a8fd86d62")] = true := by decide
+     ("Components.combine", "821eee6a8fd86d62"),
+     ("Components.getRandString", "e0d0c1e522ab3e0f")] = true := by decide
 -- END PINS
 
 end SciVerif.Tie
